@@ -798,3 +798,16 @@ func init() {
 	externals["(*sync.rlocker).Lock"] = externals["(*sync.RWMutex).RLock"]
 	externals["(*sync.rlocker).Unlock"] = externals["(*sync.RWMutex).RUnlock"]
 }
+
+func init() {
+	// rt.ChanCap(ch, n): override the capacity of one channel (used to keep an eager producer,
+	// e.g. the chunked token generator, from filling a 1000-slot buffer on every path)
+	rtExternals["ChanCap"] = func(fr *frame, a []value) value {
+		c, ok := a[0].(iface).v.(*chanObj)
+		if !ok || c == nil {
+			panic(engineError{"rt.ChanCap: not a channel"})
+		}
+		c.cap = int(asInt64(a[1]))
+		return nil
+	}
+}
